@@ -217,6 +217,19 @@ def end_to_end(chk, tier):
             chk.violation({'why': 'formula result differs from the helper applied to the same operands (translator glue)',
                            'formula': f, 'impl': g, 'helper': w})
     chk.sample({'formula': formulas[0], 'value': got[0]})
+    # date operands supplied by overrides (holiday cells included): the same as the workbook edited
+    base = {(0, 0): D(dt.date(2024, 1, 1).toordinal()), (1, 0): D(dt.date(2024, 1, 12).toordinal()), (3, 0): D(dt.date(2024, 1, 3).toordinal()), (3, 1): D(dt.date(2024, 1, 6).toordinal()),
+            (3, 2): None, (2, 0): 3}
+    of = ['=NETWORKDAYS(A1,B1,D1:D2)', '=NETWORKDAYS(A1,B1,D1:D3)', '=NETWORKDAYS(A1,B1)', '=EDATE(A1,C1)', '=EOMONTH(D2,C1)', '=YEAR(D2)*100+DAY(D2)', '=DATEDIF(A1,B1,"D")', '=MONTH(EDATE(D1,C1))']
+    for ov in ({(3, 1): D(dt.date(2024, 1, 9).toordinal())}, {(3, 2): D(dt.date(2024, 1, 10).toordinal())}, {(0, 0): D(dt.date(2023, 12, 25).toordinal()), (2, 0): -2},
+               {(3, 0): D(dt.date(2024, 1, 13).toordinal()), (3, 1): D(dt.date(2024, 1, 8).toordinal()), (1, 0): D(dt.date(2024, 2, 29).toordinal())}):
+        over = realcode.eval_formulas(of, {k: v for k, v in base.items() if v is not None}, overrides=ov, min_fcol=6, min_rows=3)
+        edit = realcode.eval_formulas(of, {k: v for k, v in {**base, **ov}.items() if v is not None}, min_fcol=6, min_rows=3)
+        for f, a, z in zip(of, over, edit):
+            chk.count('e2e:date-overrides')
+            if a != z:
+                chk.violation({'why': 'a date function over operands supplied by overrides differs from the same workbook edited', 'formula': f, 'overrides': repr(ov),
+                               'impl': a, 'edited workbook': z, 'stream': 'date-overrides'})
     # DATE written with literals only, in particular years below 1900 (Excel adds 1900) and out-of-range months / days
     lits = [(99, 12, 31), (0, 1, 1), (1899, 1, 1), (1900, 1, 1), (5, 14, 40), (2024, 0, 15), (2024, 2, 30), (2023, 13, 1), (24, 2, 29), (1899, 12, 31), (1900, 3, 0), (2024, 12, 31), (1900, 1, 0), (1900, 0, 1), (0, 0, 0), (1900, 1, -5), (0, 1, 0)]
     lf = ['=DATE(%d,%d,%d)' % t for t in lits] + ['=YEAR(DATE(%d,%d,%d))' % t for t in lits]
